@@ -92,7 +92,7 @@ fn ix(rng: &mut Rng) -> usize {
 
 /// A history for C13: allocations first (so that later operations have
 /// operands), then a seeded interleaving of forcing and computing operations.
-pub fn history(rng: &mut Rng, c: &Corpus) -> Circuit {
+pub fn history(rng: &mut Rng, c: &Corpus, deep: bool) -> Circuit {
     let mut ops = Vec::new();
     let nalloc = rng.range(2, 5);
     let invalid_rate = if rng.chance(1, 3) { (1, 3) } else { (0, 1) };
@@ -130,7 +130,7 @@ pub fn history(rng: &mut Rng, c: &Corpus) -> Circuit {
             v: rng.chance(1, 2),
         });
     }
-    let n = rng.range(3, 24);
+    let n = if deep && rng.chance(1, 2) { rng.range(20, 60) } else { rng.range(3, 24) };
     // swarm: per-run weights of the three families
     let w_force = rng.range(1, 6);
     let w_comp = rng.range(1, 5);
